@@ -85,3 +85,18 @@ def default_key(c):
     tag = ":".join("%s=%s" % (k, n[k]) for k in sorted(n)) if isinstance(n, dict) else str(n)
     h = vlib.hashlib.sha1(vlib.json.dumps([c["a"], c["input"]], sort_keys=True).encode()).hexdigest()[:10]
     return "%s:%s:%s" % (c["fn"], tag, h)
+
+
+def trace_robust(rep, prop, run, events, nchunks=8):
+    """TLC evaluates the observation invariants of Robust.tla on every recorded event; returns {id: broken invariant}."""
+    d = vlib.workdir(prop, run)
+    path = vlib.os.path.join(d, "events.ndjson")
+    vlib.write_ndjson(path, [{"id": e["id"], "res": {"k": e["res"]["k"], "p": e["res"]["p"]}, "fmt_panic": e.get("fmt_panic", ""),
+                              "alloc": e["alloc"], "len": e["len"], "rem_ok": e["rem_ok"], "foreign": e["foreign"], "max_end": e["max_end"]}
+                             for e in events])
+    _, res, lines = vlib.tlc_chunked(prop, run + "_tlc", "Trace_Robust", nchunks=nchunks, env={"VERIF_IN": path}, out_name="broken")
+    rep.add_tlc("Trace_Robust(%s)" % run, res)
+    done = [l for l in lines if l["id"] == "done"]
+    if len(done) != min(nchunks, len(events)):
+        raise vlib.ToolError("Trace_Robust: %d of %d chunks finished" % (len(done), nchunks))
+    return {l["id"]: l["broken"] for l in lines if l["id"] != "done"}
